@@ -21,6 +21,7 @@ import TboxModel.C19.AesProofs
 import TboxModel.C19.AesSpecProofs
 import TboxModel.C19.Round7Proofs
 import TboxModel.C19.Round8Proofs
+import TboxModel.C19.Round9Proofs
 namespace Tbox.C19
 set_option maxRecDepth 100000
 
@@ -889,5 +890,83 @@ theorem C19_url_host_roundtrip_counterexample :
       ∧ Url.parseHost (Url.hostToString ⟨[], [112], [104], 0⟩) = (true, ⟨[], [], [104], 0⟩)
       ∧ Url.parseHost (Url.hostToString ⟨[37, 52, 49], [], [104], 0⟩) = (true, ⟨[65], [], [104], 0⟩)
       ∧ Url.parseHost (Url.hostToString ⟨[], [], [104], 65616⟩) = (true, ⟨[], [], [104], 80⟩) := by decide +kernel
+
+/-! ## Round 9 (lesson h): accumulators and long inputs -/
+
+/-- `C19_sum16_width`: `CalcCheckSum16` with its `uint32_t` accumulator (truncation `% 2^32` after every `+=`, carry loop after every
+word) is the one's-complement sum of the big-endian words for EVERY byte string of EVERY length: the accumulator holds at most 0xFFFF
+after each word, so no addition ever reaches 2^32 and the two-round carry loop always finishes. Same for `CalcCheckSum8` and its
+`uint16_t` accumulator. Hence the unbounded naturals of `Crc.sum16` / `Crc.sum8` are exact (no hidden width assumption). -/
+theorem C19_sum16_width :
+    (∀ data : List UInt8, Long.sum16W data = Spec.sum16 data ∧ Long.sum16W data = Crc.sum16 data ∧ Long.sum16AccW 0 data ≤ 0xFFFF) ∧
+    (∀ data : List UInt8, Long.sum8W data = Spec.sum8 data ∧ Long.sum8W data = Crc.sum8 data) ∧
+    (∀ acc, acc < 2 ^ 32 → Crc.fold16 acc < 65536) ∧ (∀ acc, acc < 2 ^ 16 → Crc.fold8 acc < 256) :=
+  ⟨fun d => ⟨by rw [Long.sum16W_eq, Crc.checksum16_eq_sum], Long.sum16W_eq d, Long.sum16AccW_le d⟩,
+   fun d => ⟨by rw [Long.sum8W_eq, Crc.checksum8_eq_sum], Long.sum8W_eq d⟩, Long.fold16_done, Long.fold8_done⟩
+
+/- OPEN (false): ∀ data, Long.sum16FoldOnce32 data = Spec.sum16 data — the variant of seeded change C19-7 ("sum all words into the
+uint32_t, fold the carries once after the loop"). -/
+/-- `C19_sum16_fold_once_partial`: the fold-once variant is exact for every input of at most 131074 bytes (65537 words sum to at most
+2^32 − 1) … -/
+theorem C19_sum16_fold_once_partial (data : List UInt8) (h : data.length ≤ 131074) :
+    Long.sum16FoldOnce32 data = Spec.sum16 data := Long.foldOnce32_ok data h
+
+example : ([0xFF, 0xFF, 0x01] : List UInt8).length ≤ 131074 := by decide
+
+/-- … and 131075 is the LEAST failing length: 131075 bytes of 0xFF give 0x0100 instead of 0x00FF (the 32-bit accumulator wrapped once;
+every wrap loses one end-around carry) -/
+theorem C19_sum16_fold_once_counterexample :
+    Long.sum16FoldOnce32 (List.replicate 131075 0xFF) = 0x0100 ∧ Spec.sum16 (List.replicate 131075 0xFF) = 0x00FF
+      ∧ Long.sum16FoldOnce32 (List.replicate 131075 0xFF) ≠ Spec.sum16 (List.replicate 131075 0xFF) := by
+  obtain ⟨h1, h2⟩ := Long.foldOnce32_bad
+  exact ⟨h1, h2, by rw [h1, h2]; decide⟩
+
+/-- the same for `CalcCheckSum8` with its `uint16_t` accumulator: fold-once is exact up to 257 bytes, wrong for 258 bytes of 0xFF -/
+theorem C19_sum8_fold_once_partial (data : List UInt8) (h : data.length ≤ 257) :
+    Long.sum8FoldOnce16 data = Spec.sum8 data := Long.foldOnce16_ok data h
+
+example : ([0xFF, 0x01] : List UInt8).length ≤ 257 := by decide
+
+theorem C19_sum8_fold_once_counterexample :
+    Long.sum8FoldOnce16 (List.replicate 258 0xFF) = 0x01 ∧ Spec.sum8 (List.replicate 258 0xFF) = 0x00 := Long.foldOnce16_bad
+
+/-- closed form on the saturating input: the 16-bit checksum of n bytes 0xFF is 0xFFFF (n = 0), 0 (n even), 0x00FF (n odd) — for every n -/
+theorem C19_sum16_ff_closed (n : Nat) :
+    Spec.sum16 (List.replicate n 0xFF) = if n = 0 then 0xFFFF else if n % 2 = 0 then 0 else 0x00FF := Long.sum16_ff_closed n
+
+/-- `C19_sum_array_refines` / `C19_crc_array_refines`: the `Array` evaluators the driver uses for inputs of up to 2^24 bytes compute
+exactly the list models (which the theorems above relate to the published algorithms) -/
+theorem C19_sum_array_refines (a : Array UInt8) :
+    Long.sum8A a = Crc.sum8 a.toList ∧ Long.sum16A a = Crc.sum16 a.toList
+      ∧ Long.sum8A a = Spec.sum8 a.toList ∧ Long.sum16A a = Spec.sum16 a.toList :=
+  ⟨Long.sum8A_eq a, Long.sum16A_eq a, by rw [Long.sum8A_eq, Crc.checksum8_eq_sum], by rw [Long.sum16A_eq, Crc.checksum16_eq_sum]⟩
+
+theorem C19_crc_array_refines (a : Array UInt8) :
+    (∀ seed, Long.crc16A a seed = Crc.crc16 a.toList seed ∧ Long.crc16A a seed = Spec.crc16 a.toList seed) ∧
+    (∀ seed, Long.crc32A a seed = Crc.crc32 a.toList seed ∧ Long.crc32A a seed = Spec.crc32 a.toList seed) ∧
+    Long.fnvA a = Long.fnvL a.toList :=
+  ⟨fun s => ⟨Long.crc16A_eq a s, by rw [Long.crc16A_eq, Crc.crc16_eq_bitwise]⟩,
+   fun s => ⟨Long.crc32A_eq a s, by rw [Long.crc32A_eq, Crc.crc32_eq_bitwise]⟩, Long.fnvA_eq a⟩
+
+/-- `C19_b64_chunked_refines`: the Base64 encoder evaluated 3072 bytes at a time (what the driver does for long inputs) is the encoder;
+more generally the encoding of `a ++ b` is the concatenation of the encodings when |a| is a multiple of 3 -/
+theorem C19_b64_chunked_refines :
+    (∀ x : List UInt8, Long.b64EncChunked x = B64.encGo .s0 0 x) ∧
+    (∀ a b : List UInt8, a.length % 3 = 0 → B64.encGo .s0 0 (a ++ b) = B64.encGo .s0 0 a ++ B64.encGo .s0 0 b) :=
+  ⟨Long.b64EncChunked_eq, fun a b h => Long.encGo_append3 a b 0 0 h⟩
+
+example : ([1, 2, 3] : List UInt8).length % 3 = 0 := by decide
+
+/-- `C19_aes_unkeyed_roundtrip`: an object built with `AES(nullptr)` and used BEFORE its first `setKey` has unspecified round keys
+(`w[11][4][4]` is left uninitialised) — its `cipher` output is unspecified and outside the property's quantifier ("every key and
+block": there is no key). What still holds, for EVERY content of the 11 × 16 bytes of `w`: `invcipher` undoes `cipher` on that object.
+(The harness observes exactly this and prints nothing of the unspecified ciphertext.) -/
+theorem C19_aes_unkeyed_roundtrip (o : Aes.Obj) (hw : ∀ i, (Aes.wAt o.w i).length = 16) (b : List UInt8) (hb : b.length = 16) :
+    o.invCipher Aes.gen (o.cipher Aes.gen b) = b := by
+  unfold Aes.Obj.invCipher Aes.Obj.cipher
+  rw [Aes.transpose_transpose _ (Aes.cipherMat_length Aes.gen _ _ hw),
+    Aes.invCipherMat_cipherMat (fun x => (C19_aes_sbox_inverse x).1) _ _ (Aes.transpose_length _) hw, Aes.transpose_transpose _ hb]
+
+example : ∀ i, (Aes.wAt (⟨[]⟩ : Aes.Obj).w i).length = 16 := by intro i; simp [Aes.wAt]
 
 end Tbox.C19
